@@ -37,6 +37,7 @@ import LfsModel.Prune
 import LfsModel.Fsck
 import LfsModel.FsckScan
 import LfsModel.AttrFilter
+import LfsModel.AuthLoop
 import LfsModel.TagRewrite
 import LfsModel.Rewrite
 import LfsModel.Locks
@@ -352,6 +353,12 @@ def tqTrace : List String → String
   | _ => "bad-op"
 
 def c15 : List String → String
+  | ["authsub", bits] =>
+    -- bits: for the k-th answer, 1 = an authentication error that left the request without Authorization
+    -- (the last bit repeats); the number of resubmissions allowed is the regenerated constant
+    let bs := bits.toList.map (· == '1')
+    let again : Nat → Bool := fun k => bs.getD k (bs.getLast?.getD false)
+    s!"submissions {AuthLoop.submissions again Gen.defaultMaxAuthAttempts 0}"
   | ["delay", count, mx] =>
     match count.toNat?, mx.toNat? with
     | some c, some m => s!"delay {Backoff.delayMs 250 (1000 * m) c}"
